@@ -28,7 +28,8 @@
 (* in the binding fast path").                                              *)
 (***************************************************************************)
 EXTENDS Naturals, Sequences, FiniteSets, TLC
-CONSTANTS Cancellers, Tgt, Order, FIXPM, HINTSC
+CONSTANTS Cancellers, Tgt, Order, FIXPM, HINTSC, BindTo, ROOTCOPY
+ASSUME BindTo = "P"          \* (the store-buffer variant covers the grand-ancestor branch only)
 Ctxs == {"G", "P", "S", "C"}
 Thr == {"X", "B", "A1", "A2"}
 (* --algorithm ctxtso {
